@@ -5,6 +5,7 @@ import (
 	"encoding/base64"
 
 	p2pcrypto "github.com/libp2p/go-libp2p/core/crypto"
+	"golang.org/x/crypto/curve25519"
 	"golang.org/x/crypto/nacl/box"
 
 	"berty.tech/weshnet/v2/pkg/cryptoutil"
@@ -92,6 +93,23 @@ func (hc *handshakeContext) receivePeerEphemeralPubKey() error {
 	if err != nil {
 		return errcode.ErrCode_ErrSerialization.Wrap(err)
 	}
+
+	return nil
+}
+
+// Computes the shared key a.b from both Ephemeral keys.
+//
+// A peer's Ephemeral key that is a low-order point is rejected: the X25519
+// result would be the all-zero value whatever our own key is, so a.b (and
+// a.B) would be constants known to everybody and a proof sig[A](a.b) made in
+// such a session could be replayed in any other one.
+func (hc *handshakeContext) computeSharedEphemeral() error {
+	// curve25519.X25519 fails, in constant time, on an all-zero output
+	if _, err := curve25519.X25519(hc.ownEphemeral[:], hc.peerEphemeral[:]); err != nil {
+		return errcode.ErrCode_ErrInvalidInput.Wrap(err)
+	}
+
+	box.Precompute(hc.sharedEphemeral, hc.peerEphemeral, hc.ownEphemeral)
 
 	return nil
 }
